@@ -573,7 +573,7 @@ func stScenarioOps() []OpDef {
 // h.Submit; the monitors (C09 ledger, C12 pool equality) judge each of them.
 
 func init() {
-	for _, p := range []string{"C09", "C12"} {
+	for _, p := range []string{"C09", "C12", "C04"} {
 		RegisterScenario(Scenario{Prop: p, Name: "price-change-then-update-allocation", Every: 1, Fn: pxScenario})
 	}
 }
@@ -863,6 +863,16 @@ func pxRound(h *Hist, r *mon.Rand, last bool) {
 				}
 			}
 			in["extend"] = true
+			if r.Chance(0.6) {
+				// the request names the allocation's owner (or another funded wallet) as owner_id; the tokens it locks are the sender's
+				named := v.Owner
+				if r.Chance(0.3) {
+					named = h.W.Clients[r.Intn(len(h.W.Clients))].ID
+				}
+				if w := h.W.Wallets[named]; w != nil {
+					in["owner_id"], in["owner_public_key"] = w.ID, w.PubKey
+				}
+			}
 		case "grow", "extend-and-grow":
 			inc := []int64{1, stMB, v.Size / 2, v.Size}[r.Intn(4)]
 			in["size"] = inc
